@@ -24,6 +24,11 @@ def body(run):
     try:
         out, meta = run.drive("c01")
         run.absorb(meta)
+        if th:
+            # MC_DataX_thorough holds 65536-byte buffers in its states and needs TLC's large default heap: it runs beside the
+            # driver (little memory), and is over before the trace validators (one JVM per trace file) start
+            for f in mcs:
+                f.result()
         run.validate(out, meta, max_findings=3)     # per trace file (five files): enough to show a defect, triage stays short
         run.selftest(out, meta, gen="prog")
         # a kept result that changed must be rejected (the Again observation is judged, not decoration)
